@@ -182,4 +182,40 @@ Section Durable.
     - intros Hn. apply gone_stays; auto; [apply exec_reach; auto | apply remove_gone; auto].
     - intros x Hn. apply gone_stays; auto; [apply exec_reach; auto|]. rewrite purge_gone; auto.
   Qed.
+
+  (** ** within one process incarnation: the generator never produces the same id twice (fewer than
+      10000 deliveries per second), so no later candidate list contains the removed id *)
+  Definition never_generated (id : str) (its : list item) : Prop :=
+    forall o, In (IOp o) its ->
+      match o with FileDisk.Add _ _ _ cands => ~ In id cands | _ => True end.
+
+  Lemma pick_id_In cands ms x : pick_id cands ms = Some x -> In x cands.
+  Proof.
+    induction cands as [|c r IH]; simpl; [discriminate|]. destruct (has_id c ms); auto.
+    intros H; inversion H; auto.
+  Qed.
+
+  Lemma never_generated_reissued id its : never_generated id its -> forall h d, never_reissued id h d its.
+  Proof.
+    induction its as [|[o|] r IH]; intros Hn h d; simpl; auto.
+    - split.
+      + intros [_ Hres]. specialize (Hn o (or_introl eq_refl)).
+        unfold FileDisk.result_of in Hres.
+        destruct (read_index dec d (hash (op_mailbox o)) (op_mailbox o)) as [[nm ms]|]; [|discriminate].
+        destruct o as [mb info body cands | mb x | mb x | mb].
+        * destruct (pick_id cands (skipn (evict_count cap (length ms)) ms)) eqn:E; [|discriminate].
+          inversion Hres; subst. apply Hn. eapply pick_id_In; eauto.
+        * destruct (find_id x ms); discriminate.
+        * destruct (has_id x ms); discriminate.
+        * discriminate.
+      + apply IH. intros o' Ho'. apply Hn. right; auto.
+    - apply IH. intros o' Ho'. apply Hn. right; auto.
+  Qed.
+
+  Theorem removed_stay_gone_one_incarnation d mb id its :
+    reach d -> never_generated id its ->
+    ~ In id (view_ids (run_items (exec (Remove mb id) d) its) (hash mb)).
+  Proof.
+    intros Hr Hn. apply (proj1 (removed_stay_gone d mb id its Hr)). apply never_generated_reissued; auto.
+  Qed.
 End Durable.
